@@ -16,8 +16,8 @@
 (* No operator here takes the schema as an argument: the types never       *)
 (* influence a step.  Law: curP = cur when nothing was defaulted, and      *)
 (* curP \subseteq cur always (a schema only ever ADDS PSVI attributes).     *)
-(* Instances using xsi:nil / xsi:type are outside this module (XDM.tla has *)
-(* no kind for their attributes); they are covered by SchemaWalk.          *)
+(* Instances using xsi:nil / xsi:type or substitution-group members are    *)
+(* outside this module (XDM.tla has no kind for them); SchemaWalk has them. *)
 (***************************************************************************)
 EXTENDS XDM, SchemaTyping, SequencesExt
 
@@ -29,7 +29,7 @@ vars == <<parent, kind, pid, cur, curP, depth>>
 PairRec(S, inst) == [s |-> S, inst |-> inst, f |-> Flatten(S, inst)]
 PairSeq == SetToSeq({p \in UNION {{PairRec(S, inst) : inst \in Instances(S)} : S \in Schemas} :
                         /\ Len(p.f) = N
-                        /\ \A n \in 1..Len(p.f) : p.f[n].k # "xx"})
+                        /\ \A n \in 1..Len(p.f) : p.f[n].k \notin {"xx", "em"}})
 FOf  == PairSeq[pid].f
 Dflt == {n \in 1..N : FOf[n].dflt}
 
